@@ -102,6 +102,21 @@ type WalkRec struct {
 	HasChild                bool
 }
 
+// reread: a visit hands out the facts of one node; a caller may keep the *WalkerNode and read it when the walk is
+// over (collect the nodes, then print them).  If a node kept from visit i then answers differently, the record of
+// that visit is replaced by a description of the change, which no specification row equals.
+func reread(recs []WalkRec, kept []*gtree.WalkerNode) {
+	for i, wn := range kept {
+		if i >= len(recs) || wn == nil {
+			continue
+		}
+		if now := recOf(wn); now != recs[i] {
+			recs[i].Row = fmt.Sprintf("<the node handed to visit %d said Row=%q Path=%q Level=%d when visited and says Row=%q Path=%q Level=%d after the walk>",
+				i+1, recs[i].Row, recs[i].Path, recs[i].Level, now.Row, now.Path, now.Level)
+		}
+	}
+}
+
 func recOf(wn *gtree.WalkerNode) WalkRec {
 	return WalkRec{Name: wn.Name(), Branch: wn.Branch(), Row: wn.Row(), Path: wn.Path(), Level: wn.Level(), HasChild: wn.HasChild()}
 }
@@ -109,62 +124,95 @@ func recOf(wn *gtree.WalkerNode) WalkRec {
 // WalkMD runs WalkFromMarkdown; the callback fails with failErr at the failAt-th visit (1-based, 0 = never).
 func WalkMD(doc string, failAt int, failErr error, opts ...gtree.Option) ([]WalkRec, Outcome) {
 	var recs []WalkRec
+	var kept []*gtree.WalkerNode
 	o := Guard(func() error {
 		return gtree.WalkFromMarkdown(strings.NewReader(doc), func(wn *gtree.WalkerNode) error {
 			recs = append(recs, recOf(wn))
+			kept = append(kept, wn)
 			if failAt > 0 && len(recs) == failAt {
 				return failErr
 			}
 			return nil
 		}, opts...)
 	})
+	reread(recs, kept)
 	return recs, o
 }
 
 func WalkRoot(root *gtree.Node, failAt int, failErr error, opts ...gtree.Option) ([]WalkRec, Outcome) {
 	var recs []WalkRec
+	var kept []*gtree.WalkerNode
 	o := Guard(func() error {
 		return gtree.WalkFromRoot(root, func(wn *gtree.WalkerNode) error {
 			recs = append(recs, recOf(wn))
+			kept = append(kept, wn)
 			if failAt > 0 && len(recs) == failAt {
 				return failErr
 			}
 			return nil
 		}, opts...)
 	})
+	reread(recs, kept)
 	return recs, o
 }
 
 // WalkIterRoot consumes WalkIterFromRoot, breaking out after breakAt visits (0 = never).
 func WalkIterRoot(root *gtree.Node, breakAt int, opts ...gtree.Option) ([]WalkRec, Outcome) {
 	var recs []WalkRec
+	var kept []*gtree.WalkerNode
 	o := Guard(func() error {
 		for wn, err := range gtree.WalkIterFromRoot(root, opts...) {
 			if err != nil {
 				return err
 			}
 			recs = append(recs, recOf(wn))
+			kept = append(kept, wn)
 			if breakAt > 0 && len(recs) == breakAt {
 				break
 			}
 		}
 		return nil
 	})
+	reread(recs, kept)
 	return recs, o
 }
 
 // RangeWalk ranges over an iterator created earlier.
 func RangeWalk(it func(func(*gtree.WalkerNode, error) bool)) ([]WalkRec, Outcome) {
 	var recs []WalkRec
+	var kept []*gtree.WalkerNode
 	o := Guard(func() error {
 		for wn, err := range it {
 			if err != nil {
 				return err
 			}
 			recs = append(recs, recOf(wn))
+			kept = append(kept, wn)
 		}
 		return nil
 	})
+	reread(recs, kept)
+	return recs, o
+}
+
+// RangeWalkBreak ranges over an iterator created earlier and leaves the loop after n visits.
+func RangeWalkBreak(it func(func(*gtree.WalkerNode, error) bool), n int) ([]WalkRec, Outcome) {
+	var recs []WalkRec
+	var kept []*gtree.WalkerNode
+	o := Guard(func() error {
+		for wn, err := range it {
+			if err != nil {
+				return err
+			}
+			recs = append(recs, recOf(wn))
+			kept = append(kept, wn)
+			if len(recs) == n {
+				break
+			}
+		}
+		return nil
+	})
+	reread(recs, kept)
 	return recs, o
 }
 
@@ -190,26 +238,32 @@ func OutputRootAlias(root *gtree.Node, opts ...gtree.Option) Outcome {
 
 func WalkRootAlias(root *gtree.Node, opts ...gtree.Option) ([]WalkRec, Outcome) {
 	var recs []WalkRec
+	var kept []*gtree.WalkerNode
 	o := Guard(func() error {
 		return gtree.WalkProgrammably(root, func(wn *gtree.WalkerNode) error {
 			recs = append(recs, recOf(wn))
+			kept = append(kept, wn)
 			return nil
 		}, opts...)
 	})
+	reread(recs, kept)
 	return recs, o
 }
 
 func WalkIterRootAlias(root *gtree.Node, opts ...gtree.Option) ([]WalkRec, Outcome) {
 	var recs []WalkRec
+	var kept []*gtree.WalkerNode
 	o := Guard(func() error {
 		for wn, err := range gtree.WalkIterProgrammably(root, opts...) {
 			if err != nil {
 				return err
 			}
 			recs = append(recs, recOf(wn))
+			kept = append(kept, wn)
 		}
 		return nil
 	})
+	reread(recs, kept)
 	return recs, o
 }
 
